@@ -170,4 +170,50 @@ end
 /-- the formatter's single-line text of an expression at top level (e.g. after `let x = `) -/
 def fmtExpr (e : SExpr) : List Char := fmt {} e
 
+/-! ### the operator fragment as a `PrecU` printer -/
+/-- operator trees among the source trees -/
+def ofSExpr? : SExpr → Option PTree
+  | .col i => some (.leaf (.col i))
+  | .lit l => some (.leaf (.lit l))
+  | .un u x => (ofSExpr? x).map (.un u)
+  | .bin b l r => do pure (.bin b (← ofSExpr? l) (← ofSExpr? r))
+  | _ => none
+
+def ptokText : PTok → List Char
+  | .atom (.col i) => colName i
+  | .atom (.lit l) => litDisplay l
+  | .atom .star => ['*']
+  | .op o => [' '] ++ o.text ++ [' ']
+  | .pre u => u.text
+  | .lp => ['(']
+  | .rp => [')']
+
+/-- the formatter's spacing: a binary operator between spaces, nothing else -/
+def renderF (ts : List PTok) : List Char := ts.flatMap ptokText
+
+/-! ### literals and identifiers against the lexer -/
+/-- `Display` of a lexer literal (the kinds the `literal()` lexer produces; floats as decimal text `i.f`) -/
+def lexLitDisplay : Model.Lex.Lit → Option (List Char)
+  | .null => some (litDisplay .null)
+  | .boolean b => some (litDisplay (.bool b))
+  | .integer i => some (litDisplay (.int i))
+  | .string s => some (litDisplay (.str s))
+  | .rawString s => some ('r' :: quoteString s)
+  | .valueAndUnit n u => some (litDisplay (.int n) ++ u)
+  | .float text =>
+    -- decimal text `int.frac`: the f64 is printed as the shortest decimal
+    let ip := text.takeWhile (· != '.')
+    let fp := (text.dropWhile (· != '.')).drop 1
+    if ip.all Char.isDigit && fp.all Char.isDigit && !ip.isEmpty && !fp.isEmpty then
+      some (floatDisplay (Model.Lex.natOfDigits 10 (ip ++ fp)) fp.length)
+    else none
+  | _ => none
+
+/-- what the lexer makes of a printed identifier: an identifier only if it is neither a keyword, a literal nor a parameter -/
+def lexIdent (t : List Char) : Option (List Char) :=
+  if (Model.Lex.keyword t).isSome || (Model.Lex.literal t).isSome || (Model.Lex.param t).isSome then none
+  else match Model.Lex.identPart t with
+    | some (s, []) => some s
+    | _ => none
+
 end Model.Fmt
